@@ -158,6 +158,13 @@ func runTapeFile(bin, tp string, extraEnv ...string) (*nativeOutcome, error) {
 	if strings.Contains(buf.String(), "WARNING: DATA RACE") {
 		return &nativeOutcome{Fail: "race detector: DATA RACE"}, nil
 	}
+	if dbg := os.Getenv("VERIF_KEEP_FAILED"); dbg != "" {
+		os.MkdirAll(dbg, 0o755)
+		b, _ := os.ReadFile(tp)
+		n := time.Now().UnixNano()
+		os.WriteFile(filepath.Join(dbg, fmt.Sprintf("tape-%d.json", n)), b, 0o644)
+		os.WriteFile(filepath.Join(dbg, fmt.Sprintf("out-%d.txt", n)), buf.Bytes(), 0o644)
+	}
 	return nil, fmt.Errorf("native replay produced no outcome (%v): %s", err, tail(buf.String(), 1500))
 }
 
